@@ -1156,9 +1156,15 @@ func (r *runner) runStep(st *Step, idx, depth int) {
 			r.p.UpdateBarPriority(b, int(st.N), st.Flag)
 		}
 	case "write":
+		// the caller owns its buffer again as soon as Write returns (io.Writer
+		// contract): scribble over it like a recycled buffer would be
+		buf := []byte(st.Text)
 		inv := r.seq.Add(1)
-		n, err := r.p.Write([]byte(st.Text))
+		n, err := r.p.Write(buf)
 		ret := r.seq.Add(1)
+		for i := range buf {
+			buf[i] = '#'
+		}
 		r.mu.Lock()
 		r.tr.Writes = append(r.tr.Writes, WriteRec{Text: st.Text, N: n, Err: err, InvSeq: inv, RetSeq: ret})
 		r.mu.Unlock()
